@@ -22,7 +22,7 @@ Local Notation points := Tables.punctuation_commands.
 (* Stage 1: definitions                                                    *)
 (* ====================================================================== *)
 
-Definition catc (c : N) : cc := categorize_char c.
+Notation catc := categorize_char (only parsing).
 Definition is_c (k : cc) (c : N) : bool := cc_beq (catc c) k.
 Definition clean_c (c : N) : bool := negb (mem_cc (catc c) Tables.ignore_cats).
 Definition text_c (c : N) : bool := negb (mem_cc (catc c) Tables.string_stop_cats).
@@ -166,3 +166,818 @@ Fixpoint repos (p : Z) (toks : list token) : list token :=
   end.
 
 Definition clean (s : str) : bool := forallb clean_c s.
+
+(* ====================================================================== *)
+(* Stage 2: helpers                                                        *)
+(* ====================================================================== *)
+
+Local Notation cf := categorize_from.
+
+Lemma cf_app p a b : cf p (a ++ b) = cf p a ++ cf (p + Z.of_nat (length a))%Z b.
+Proof. apply categorize_from_app. Qed.
+
+Lemma cf_Forall (q : cchar -> bool) (pb : N -> bool) :
+  (forall c pos, q (mkc c pos (catc c)) = pb c) ->
+  forall x p, forallb pb x = true -> Forall (fun c => q c = true) (cf p x).
+Proof.
+  intros Hq x. induction x as [|a x IH]; intros p H; cbn [categorize_from]; constructor.
+  - rewrite Hq. cbn [forallb] in H. apply andb_true_iff in H. tauto.
+  - apply IH. cbn [forallb] in H. apply andb_true_iff in H. tauto.
+Qed.
+
+Lemma cf_head_stop (q : cchar -> bool) (pb : N -> bool) :
+  (forall c pos, q (mkc c pos (catc c)) = pb c) ->
+  forall rest p, nc_not pb (hd_error rest) = true ->
+  match cf p rest with c :: _ => q c = false | [] => True end.
+Proof.
+  intros Hq rest p H. destruct rest as [|c r]; cbn [categorize_from]; [exact I|].
+  rewrite Hq. cbn [hd_error nc_not] in H. apply negb_true_iff in H. exact H.
+Qed.
+
+Lemma tw_cf (q : cchar -> bool) (pb : N -> bool) :
+  (forall c pos, q (mkc c pos (catc c)) = pb c) ->
+  forall x p rest, forallb pb x = true -> nc_not pb (hd_error rest) = true ->
+  take_while q (cf p (x ++ rest)) = (cf p x, cf (p + Z.of_nat (length x))%Z rest).
+Proof.
+  intros Hq x p rest Hx Hr. rewrite cf_app. apply take_while_split.
+  - eapply cf_Forall; eassumption.
+  - eapply cf_head_stop; eassumption.
+Qed.
+
+Lemma chars_of_cf p s : chars_of (cf p s) = s.
+Proof. apply chars_of_categorize_from. Qed.
+
+Lemma cf_length p s : length (cf p s) = length s.
+Proof. apply categorize_from_length. Qed.
+
+Lemma mk_tok_cf p x idx k : x <> [] -> mk_tok (cf p x) idx k = mkt x p k.
+Proof.
+  intro H. destruct x as [|c x]; [congruence|]. unfold mk_tok. rewrite chars_of_cf. reflexivity.
+Qed.
+
+Lemma last_cf_cat x : forall q c p, ccat (last (cf q x) (mkc c p (catc c))) = catc (last x c).
+Proof.
+  induction x as [|a x IH]; intros q c p; [reflexivity|].
+  cbn [categorize_from]. rewrite !last_cons. apply IH.
+Qed.
+
+(* boolean facts about categories, by case analysis on the category *)
+Lemma is_c_true k c : is_c k c = true <-> catc c = k.
+Proof. unfold is_c. apply cc_eqb_eq. Qed.
+
+Lemma is_c_false k c : catc c <> k -> is_c k c = false.
+Proof. intro H. destruct (is_c k c) eqn:E; [|reflexivity]. apply is_c_true in E. contradiction. Qed.
+
+Lemma text_c_cats c : text_c c = true ->
+  catc c <> CEscape /\ catc c <> CComment /\ catc c <> CMathSwitch /\
+  lookup_sym Tables.symbols_map (catc c) = None.
+Proof.
+  unfold text_c. destruct (catc c); intro H; vm_compute in H; try discriminate H;
+    repeat split; try discriminate; reflexivity.
+Qed.
+
+Lemma blank_text_clean c : is_c CSpacer c || is_c CEndOfLine c = true ->
+  text_c c = true /\ clean_c c = true /\ catc c <> CLetter.
+Proof.
+  unfold is_c, text_c, clean_c. destruct (catc c); intro H; vm_compute in H; try discriminate H;
+    repeat split; discriminate.
+Qed.
+
+Lemma rollback_text c : rollback_c c = true -> text_c c = true /\ starts_blank [c] = false.
+Proof.
+  unfold rollback_c, text_c, starts_blank, is_c. destruct (catc c); intro H; vm_compute in H;
+    try discriminate H; split; reflexivity.
+Qed.
+
+Lemma esc2_not_escape c : esc2_c c = false -> catc c <> CEscape.
+Proof. unfold esc2_c. destruct (catc c); intro H; vm_compute in H; try discriminate H; discriminate. Qed.
+
+(* ---------------------------------------------------- rule-level helpers *)
+
+Lemma rules_1_6_none cx c0 r :
+  ccat c0 <> CEscape -> ccat c0 <> CComment -> ccat c0 <> CMathSwitch ->
+  mem_cc (ccat c0) Tables.ignore_cats = false ->
+  run_rules Tables.rule_order cx (c0 :: r) =
+  run_rules [R_spacers; R_symbols; R_punctuation_command_name; R_command_name; R_string]
+            cx (c0 :: r).
+Proof.
+  intros H1 H2 H3 H4. unfold Tables.rule_order.
+  rewrite run_rules_cons_none by (cbn [run_rule]; apply escaped_none_first; exact H1).
+  rewrite run_rules_cons_none by (cbn [run_rule]; apply comment_none; exact H2).
+  rewrite run_rules_cons_none by (cbn [run_rule]; apply math_sym_none; exact H3).
+  rewrite run_rules_cons_none by (cbn [run_rule]; apply math_asym_none; exact H1).
+  rewrite run_rules_cons_none by (cbn [run_rule]; apply line_break_none; exact H1).
+  rewrite run_rules_cons_none by (cbn [run_rule]; apply ignore_none; exact H4).
+  reflexivity.
+Qed.
+
+Lemma find_point_nonletter c0 s : catc c0 <> CLetter -> find_point points (c0 :: s) = None.
+Proof.
+  intro H. destruct (find_point points (c0 :: s)) as [q|] eqn:E; [|reflexivity].
+  exfalso. apply find_point_in in E. destruct E as [Iq Fq].
+  destruct (points_start_letter q Iq) as (c & q' & Eq & Hc). subst q.
+  cbn [length firstn] in Fq. inversion Fq; subst. contradiction.
+Qed.
+
+Lemma punct_none_nonletter prevc c p r :
+  catc c <> CLetter -> rule_punctuation points prevc (cf p (c :: r)) = RNone.
+Proof.
+  intro H. unfold rule_punctuation. destruct (prev_is_escape prevc); [|reflexivity].
+  rewrite chars_of_cf, (find_point_nonletter c r H). reflexivity.
+Qed.
+
+Lemma cmd_none_nonletter prevc c0 r : ccat c0 <> CLetter -> rule_command_name prevc (c0 :: r) = RNone.
+Proof.
+  intro H. unfold rule_command_name. destruct (prev_is_escape prevc); [|reflexivity].
+  rewrite (is_cat_false _ _ H). reflexivity.
+Qed.
+
+Lemma punct_none_find prevc cs :
+  find_point points (chars_of cs) = None -> rule_punctuation points prevc cs = RNone.
+Proof.
+  intro H. unfold rule_punctuation. destruct (prev_is_escape prevc); [|reflexivity].
+  rewrite H. reflexivity.
+Qed.
+
+(* rule 7 on  s1 e s2 r3 *)
+Lemma spacers_spec idx s1 e s2 r3 :
+  Forall (fun c => is_cat CSpacer c = true) s1 ->
+  Forall (fun c => is_cat CSpacer c = true) s2 ->
+  match r3 with c :: _ => is_cat CSpacer c = false | [] => True end ->
+  (e = [] /\ s2 = [] /\ match r3 with c :: _ => is_cat CEndOfLine c = false | [] => True end) \/
+  (exists c, e = [c] /\ is_cat CEndOfLine c = true) ->
+  rule_spacers idx (s1 ++ e ++ s2 ++ r3) =
+  let emit := match s1 ++ e ++ s2 with
+              | [] => RNone
+              | _ :: _ => RTok (mk_tok (s1 ++ e ++ s2) idx TMergedSpacer) r3
+              end in
+  match r3 with
+  | c :: _ => if mem_cc (ccat c) Tables.spacer_rollback_cats then RNone else emit
+  | [] => emit
+  end.
+Proof.
+  intros F1 F2 H3 He. unfold rule_spacers.
+  assert (Hhead : match e ++ s2 ++ r3 with c :: _ => is_cat CSpacer c = false | [] => True end).
+  { destruct He as [(E1 & E2 & E3) | (c & E1 & E2)]; subst; cbn [app]; [exact H3|].
+    apply is_cat_true in E2. apply is_cat_false. rewrite E2. discriminate. }
+  rewrite (take_while_split (is_cat CSpacer) s1 (e ++ s2 ++ r3) F1 Hhead).
+  destruct He as [(E1 & E2 & E3) | (c & E1 & E2)]; subst; cbn [app].
+  - destruct r3 as [|c r3']; cbn [take_while].
+    + rewrite !app_nil_r. reflexivity.
+    + rewrite E3. cbn [take_while]. rewrite H3. rewrite !app_nil_r. cbn [app]. reflexivity.
+  - rewrite E2. rewrite (take_while_split (is_cat CSpacer) s2 r3 F2 H3). reflexivity.
+Qed.
+
+(* string-level decomposition  s = blank* (eol blank* )? ++ after_spacers s *)
+Lemma drop_blanks_decomp s : exists b,
+  s = b ++ drop_blanks s /\ forallb (is_c CSpacer) b = true /\
+  nc_not (is_c CSpacer) (hd_error (drop_blanks s)) = true.
+Proof.
+  induction s as [|c s IH]; cbn [drop_blanks].
+  - exists []. repeat split.
+  - destruct (is_c CSpacer c) eqn:E.
+    + destruct IH as (b & H1 & H2 & H3). exists (c :: b). cbn [app forallb].
+      rewrite E, H2, <- H1. repeat split. exact H3.
+    + exists []. cbn [app forallb hd_error nc_not]. rewrite E. repeat split.
+Qed.
+
+Lemma drop_blanks_id s : nc_not (is_c CSpacer) (hd_error s) = true -> drop_blanks s = s.
+Proof.
+  destruct s as [|c s]; [reflexivity|]. cbn [hd_error nc_not drop_blanks].
+  intro H. apply negb_true_iff in H. rewrite H. reflexivity.
+Qed.
+
+Lemma after_spacers_decomp s : exists b1 e b2,
+  s = b1 ++ e ++ b2 ++ after_spacers s /\
+  forallb (is_c CSpacer) b1 = true /\ forallb (is_c CSpacer) b2 = true /\
+  nc_not (is_c CSpacer) (hd_error (after_spacers s)) = true /\
+  ((e = [] /\ b2 = [] /\ nc_not (is_c CEndOfLine) (hd_error (after_spacers s)) = true) \/
+   (exists c, e = [c] /\ is_c CEndOfLine c = true)).
+Proof.
+  unfold after_spacers. destruct (drop_blanks_decomp s) as (b1 & H1 & H2 & H3).
+  destruct (drop_blanks s) as [|c s1] eqn:Ed.
+  - exists b1, [], []. cbn [drop_eol drop_blanks app hd_error nc_not]. repeat split; auto.
+  - cbn [drop_eol]. destruct (is_c CEndOfLine c) eqn:Ee.
+    + destruct (drop_blanks_decomp s1) as (b2 & G1 & G2 & G3).
+      exists b1, [c], b2. cbn [app]. rewrite <- G1. repeat split; auto. right. eauto.
+    + rewrite (drop_blanks_id (c :: s1) H3).
+      exists b1, [], []. cbn [app hd_error nc_not]. rewrite Ee. repeat split; auto.
+Qed.
+
+Lemma forallb_app {A} (f : A -> bool) a b : forallb f (a ++ b) = forallb f a && forallb f b.
+Proof. induction a as [|x a IH]; cbn [app forallb]; [reflexivity|]. rewrite IH, andb_assoc. reflexivity. Qed.
+
+Lemma blanks_no_eol b : forallb (is_c CSpacer) b = true -> has_eol b = false.
+Proof.
+  unfold has_eol. induction b as [|c b IH]; cbn [forallb existsb]; [reflexivity|].
+  intro H. apply andb_true_iff in H. destruct H as [H1 H2]. rewrite (IH H2), orb_false_r.
+  apply is_c_true in H1. apply is_c_false. rewrite H1. discriminate.
+Qed.
+
+Lemma is_cat_cf k c pos : is_cat k (mkc c pos (catc c)) = is_c k c.
+Proof. reflexivity. Qed.
+
+(* ====================================================================== *)
+(* Stage 2: one lemma per token kind -- "the round emits exactly t"        *)
+(* ====================================================================== *)
+
+(* what the round needs to know about peek(-1): only for a letter *)
+Definition ctx_ok (esc : bool) (pp pc : option cchar) (s : str) : Prop :=
+  starts_letter s = true ->
+  (prev_is_escape pp = esc /\ prev_is_escape pc = esc) \/
+  (esc = false /\ find_point points s = None /\ prev_is_escape pc = false).
+
+Lemma asym_none_lookup c0 c1 r :
+  lookup_asym Tables.asym_map (ccat c0) (ccat c1) = None ->
+  rule_math_asym_switch (c0 :: c1 :: r) = RNone.
+Proof. intro H. unfold rule_math_asym_switch. rewrite H. reflexivity. Qed.
+
+Lemma line_break_none_second c0 c1 r :
+  ccat c1 <> CEscape -> rule_line_break (c0 :: c1 :: r) = RNone.
+Proof.
+  intro H. unfold rule_line_break. destruct (is_cat CEscape c0); [|reflexivity].
+  rewrite (is_cat_false _ _ H). reflexivity.
+Qed.
+
+(* rule 8: { } [ ] and the lone escape *)
+Lemma round_symbols cx c k p rest :
+  lookup_sym Tables.symbols_map (catc c) = Some k ->
+  (catc c = CEscape ->
+   nc_not esc2_c (hd_error rest) = true /\ nc_not asym_c (hd_error rest) = true) ->
+  run_rules Tables.rule_order cx (cf p (c :: rest)) = RTok (mkt [c] p k) (cf (p + 1)%Z rest).
+Proof.
+  intros Hk Hesc. cbn [categorize_from].
+  set (c0 := mkc c p (catc c)). set (tl := cf (p + 1)%Z rest) in *.
+  assert (Hfire : rule_symbols (c0 :: tl) = RTok (mkt [c] p k) tl).
+  { unfold rule_symbols. cbn [ccat c0]. rewrite Hk. reflexivity. }
+  destruct (cc_eq_dec (catc c) CEscape) as [E|NE].
+  - specialize (Hesc E). destruct Hesc as [H2 Ha].
+    assert (Hign : mem_cc (ccat c0) Tables.ignore_cats = false) by (cbn [ccat c0]; rewrite E; reflexivity).
+    unfold Tables.rule_order.
+    destruct rest as [|c1 rest'].
+    + subst tl. cbn [categorize_from] in *.
+      rewrite run_rules_cons_none
+        by (cbn [run_rule]; unfold rule_escaped_symbols; destruct (is_cat CEscape c0); reflexivity).
+      rewrite run_rules_cons_none by (cbn [run_rule]; apply comment_none; cbn [ccat c0]; rewrite E; discriminate).
+      rewrite run_rules_cons_none by (cbn [run_rule]; apply math_sym_none; cbn [ccat c0]; rewrite E; discriminate).
+      rewrite run_rules_cons_none by (cbn [run_rule]; reflexivity).
+      rewrite run_rules_cons_none
+        by (cbn [run_rule]; unfold rule_line_break; destruct (is_cat CEscape c0); reflexivity).
+      rewrite run_rules_cons_none by (cbn [run_rule]; apply ignore_none; exact Hign).
+      rewrite run_rules_cons_none
+        by (cbn [run_rule]; apply spacers_none; cbn [ccat c0]; rewrite E; discriminate).
+      apply run_rules_cons_tok. cbn [run_rule]. exact Hfire.
+    + subst tl. cbn [categorize_from] in *. cbn [hd_error nc_not] in H2, Ha.
+      apply negb_true_iff in H2. apply negb_true_iff in Ha.
+      set (c1' := mkc c1 (p + 1)%Z (catc c1)) in *.
+      rewrite run_rules_cons_none by (cbn [run_rule]; apply escaped_none_second; exact H2).
+      rewrite run_rules_cons_none by (cbn [run_rule]; apply comment_none; cbn [ccat c0]; rewrite E; discriminate).
+      rewrite run_rules_cons_none by (cbn [run_rule]; apply math_sym_none; cbn [ccat c0]; rewrite E; discriminate).
+      rewrite run_rules_cons_none.
+      2:{ cbn [run_rule]. apply asym_none_lookup. cbn [ccat c0 c1']. rewrite E.
+          unfold asym_c in Ha. destruct (lookup_asym Tables.asym_map CEscape (catc c1)); [discriminate Ha|reflexivity]. }
+      rewrite run_rules_cons_none
+        by (cbn [run_rule]; apply line_break_none_second; apply esc2_not_escape; exact H2).
+      rewrite run_rules_cons_none by (cbn [run_rule]; apply ignore_none; exact Hign).
+      rewrite run_rules_cons_none
+        by (cbn [run_rule]; apply spacers_none; cbn [ccat c0]; rewrite E; discriminate).
+      apply run_rules_cons_tok. cbn [run_rule]. exact Hfire.
+  - assert (Hc : catc c <> CComment /\ catc c <> CMathSwitch /\
+                 mem_cc (catc c) Tables.ignore_cats = false /\
+                 catc c <> CSpacer /\ catc c <> CEndOfLine).
+    { destruct (catc c); try congruence; vm_compute in Hk; try discriminate Hk;
+        repeat split; discriminate. }
+    destruct Hc as (N2 & N3 & N4 & N5 & N6).
+    rewrite rules_1_6_none; try assumption.
+    rewrite run_rules_cons_none by (cbn [run_rule]; apply spacers_none; assumption).
+    apply run_rules_cons_tok. cbn [run_rule]. exact Hfire.
+Qed.
+
+Lemma cf_spacer_split p b1 e b2 :
+  forallb (is_c CSpacer) b1 = true -> forallb (is_c CSpacer) b2 = true ->
+  (e = [] /\ b2 = []) \/ (exists c, e = [c] /\ is_c CEndOfLine c = true) ->
+  exists S1 E S2, cf p (b1 ++ e ++ b2) = S1 ++ E ++ S2 /\
+    Forall (fun c => is_cat CSpacer c = true) S1 /\
+    Forall (fun c => is_cat CSpacer c = true) S2 /\
+    ((E = [] /\ S2 = [] /\ e = [] /\ b2 = []) \/ (exists c, E = [c] /\ is_cat CEndOfLine c = true)).
+Proof.
+  intros F1 F2 Hd. rewrite !cf_app.
+  eexists _, _, _. split; [reflexivity|]. split; [|split].
+  - apply (cf_Forall (is_cat CSpacer) (is_c CSpacer)); [intros; reflexivity | exact F1].
+  - apply (cf_Forall (is_cat CSpacer) (is_c CSpacer)); [intros; reflexivity | exact F2].
+  - destruct Hd as [(D1 & D2) | (c' & D1 & D2)]; subst e.
+    + subst b2. left. repeat split.
+    + right. cbn [categorize_from]. eexists. split; [reflexivity|]. exact D2.
+Qed.
+
+(* rule 7 emits a MergedSpacer *)
+Lemma round_spacer cx x rest p :
+  cx_idx cx = p ->
+  shape_cat TMergedSpacer x = true ->
+  nc_not rollback_c (hd_error rest) = true -> nc_not (is_c CSpacer) (hd_error rest) = true ->
+  has_eol x || nc_not (is_c CEndOfLine) (hd_error rest) = true ->
+  run_rules Tables.rule_order cx (cf p (x ++ rest)) =
+  RTok (mkt x p TMergedSpacer) (cf (p + Z.of_nat (length x))%Z rest).
+Proof.
+  intros Hidx Hs Hrb Hsp He. cbn [shape_cat] in Hs.
+  destruct x as [|c x'] eqn:Ex; [discriminate Hs|]. rewrite <- Ex in *.
+  destruct (after_spacers x) as [|? ?] eqn:Ea; [|discriminate Hs].
+  assert (Hb : is_c CSpacer c || is_c CEndOfLine c = true).
+  { destruct (is_c CSpacer c) eqn:E1; [reflexivity|]. destruct (is_c CEndOfLine c) eqn:E2; [reflexivity|].
+    exfalso. rewrite Ex in Ea. unfold after_spacers in Ea. cbn [drop_blanks drop_eol] in Ea.
+    rewrite E1 in Ea. cbn [drop_eol] in Ea. rewrite E2 in Ea. cbn [drop_blanks] in Ea.
+    rewrite E1 in Ea. discriminate Ea. }
+  destruct (after_spacers_decomp x) as (b1 & e & b2 & Hx & F1 & F2 & _ & Hd).
+  rewrite Ea, app_nil_r in Hx.
+  assert (Hne : x <> []) by (rewrite Ex; discriminate).
+  assert (Hc0 : forall r, cf p (x ++ r) = mkc c p (catc c) :: cf (p + 1)%Z (x' ++ r))
+    by (intro r; rewrite Ex; reflexivity).
+  rewrite Hc0.
+  assert (Hcat : catc c = CSpacer \/ catc c = CEndOfLine).
+  { apply orb_true_iff in Hb. destruct Hb as [Hb|Hb]; apply is_c_true in Hb; auto. }
+  rewrite rules_1_6_none;
+    try (cbn [ccat]; destruct Hcat as [Hcat|Hcat]; rewrite Hcat; (discriminate || reflexivity)).
+  rewrite <- Hc0. apply run_rules_cons_tok. cbn [run_rule]. rewrite Hidx.
+  rewrite cf_app. rewrite <- (mk_tok_cf p x p TMergedSpacer Hne).
+  set (tl := cf (p + Z.of_nat (length x))%Z rest).
+  assert (Htl1 : match tl with c :: _ => is_cat CSpacer c = false | [] => True end).
+  { apply (cf_head_stop (is_cat CSpacer) (is_c CSpacer)); [intros; reflexivity | exact Hsp]. }
+  assert (Htl2 : match tl with c :: _ => mem_cc (ccat c) Tables.spacer_rollback_cats = false | [] => True end).
+  { apply (cf_head_stop (fun c => mem_cc (ccat c) Tables.spacer_rollback_cats) rollback_c);
+      [intros; reflexivity | exact Hrb]. }
+  assert (Hsplit : exists S1 E S2, cf p x = S1 ++ E ++ S2 /\
+            Forall (fun c => is_cat CSpacer c = true) S1 /\
+            Forall (fun c => is_cat CSpacer c = true) S2 /\
+            ((E = [] /\ S2 = [] /\ e = [] /\ b2 = []) \/ (exists c, E = [c] /\ is_cat CEndOfLine c = true))).
+  { rewrite Hx. apply cf_spacer_split; try assumption.
+    destruct Hd as [(D1 & D2 & _) | D]; [left; split; assumption | right; exact D]. }
+  destruct Hsplit as (S1 & E & S2 & Hcf & G1 & G2 & G3).
+  rewrite Hcf. rewrite <- !app_assoc.
+  rewrite (spacers_spec p S1 E S2 tl G1 G2 Htl1).
+  - cbv zeta. rewrite !app_assoc. rewrite <- app_assoc. rewrite <- Hcf.
+    assert (Hnn : exists a l, cf p x = a :: l) by (rewrite Ex; cbn [categorize_from]; eauto).
+    destruct Hnn as (a & l & Hal).
+    destruct tl as [|t0 tl'].
+    + rewrite Hal. rewrite <- Hal. reflexivity.
+    + rewrite Htl2. rewrite Hal. rewrite <- Hal. reflexivity.
+  - destruct G3 as [(A1 & A2 & A3 & A4) | G3]; [left | right; exact G3].
+    repeat split; auto. subst e b2. rewrite app_nil_r in Hx. cbn [app] in Hx.
+    assert (Hno : has_eol x = false) by (rewrite Hx; apply blanks_no_eol; exact F1).
+    rewrite Hno in He. cbn [orb] in He.
+    apply (cf_head_stop (is_cat CEndOfLine) (is_c CEndOfLine)); [intros; reflexivity | exact He].
+Qed.
+
+(* rule 7 returns None at the beginning of a Text *)
+Lemma spacers_text idx p x rest :
+  match after_spacers x with
+  | [] => false
+  | c :: _ => rollback_c c || negb (starts_blank x)
+  end = true ->
+  rule_spacers idx (cf p (x ++ rest)) = RNone.
+Proof.
+  intro H. destruct (after_spacers x) as [|c tl] eqn:Ea; [discriminate H|].
+  destruct (rollback_c c) eqn:Erb.
+  - destruct (after_spacers_decomp x) as (b1 & e & b2 & Hx & F1 & F2 & H3 & Hd).
+    rewrite Ea in *. rewrite Hx. rewrite <- !app_assoc. rewrite !cf_app.
+    rewrite (spacers_spec idx).
+    + cbn [app categorize_from]. cbn [ccat]. unfold rollback_c in Erb. rewrite Erb. reflexivity.
+    + apply (cf_Forall (is_cat CSpacer) (is_c CSpacer)); [intros; reflexivity | exact F1].
+    + apply (cf_Forall (is_cat CSpacer) (is_c CSpacer)); [intros; reflexivity | exact F2].
+    + cbn [app categorize_from]. rewrite is_cat_cf. cbn [hd_error nc_not] in H3.
+      apply negb_true_iff in H3. exact H3.
+    + destruct Hd as [(D1 & D2 & D3) | (c' & D1 & D2)].
+      * left. subst e b2. repeat split. cbn [app categorize_from]. rewrite is_cat_cf.
+        cbn [hd_error nc_not] in D3. apply negb_true_iff in D3. exact D3.
+      * right. subst e. cbn [categorize_from]. eexists. split; [reflexivity|]. exact D2.
+  - cbn [orb] in H. destruct x as [|c' x']; [discriminate Ea|].
+    cbn [starts_blank] in H. apply negb_true_iff, orb_false_iff in H. destruct H as [H1 H2].
+    cbn [app categorize_from]. apply spacers_none; cbn [ccat]; intro E; apply is_c_true in E; congruence.
+Qed.
+
+(* rule 11 emits a Text *)
+Lemma round_text cx x rest p esc :
+  shape_cat TText x = true -> forallb clean_c x = true ->
+  nc_not text_c (hd_error rest) = true ->
+  negb (esc && starts_letter x) = true ->
+  cx_points cx = points ->
+  ctx_ok esc (cx_prevc_punct cx) (cx_prevc_cmd cx) (x ++ rest) ->
+  run_rules Tables.rule_order cx (cf p (x ++ rest)) =
+  RTok (mkt x p TText) (cf (p + Z.of_nat (length x))%Z rest).
+Proof.
+  intros Hs Hcl Hr Hpre Hpts Hctx. cbn [shape_cat] in Hs. apply andb_true_iff in Hs.
+  destruct Hs as [Ht Hsp].
+  destruct x as [|c x'] eqn:Ex.
+  { cbn in Hsp. discriminate Hsp. }
+  rewrite <- Ex in *.
+  assert (Hne : x <> []) by (rewrite Ex; discriminate).
+  assert (Hc0 : cf p (x ++ rest) = mkc c p (catc c) :: cf (p + 1)%Z (x' ++ rest))
+    by (rewrite Ex; reflexivity).
+  assert (Htc : text_c c = true).
+  { rewrite Ex in Ht. cbn [forallb] in Ht. apply andb_true_iff in Ht. tauto. }
+  assert (Hcc : clean_c c = true).
+  { rewrite Ex in Hcl. cbn [forallb] in Hcl. apply andb_true_iff in Hcl. tauto. }
+  destruct (text_c_cats c Htc) as (N1 & N2 & N3 & N8).
+  rewrite Hc0.
+  rewrite rules_1_6_none; try (cbn [ccat]; assumption).
+  2:{ cbn [ccat]. unfold clean_c in Hcc. apply negb_true_iff in Hcc. exact Hcc. }
+  rewrite <- Hc0.
+  rewrite run_rules_cons_none by (cbn [run_rule]; apply spacers_text; exact Hsp).
+  rewrite Hc0.
+  rewrite run_rules_cons_none by (cbn [run_rule]; apply symbols_none; cbn [ccat]; exact N8).
+  rewrite <- Hc0.
+  assert (H910 : rule_punctuation (cx_points cx) (cx_prevc_punct cx) (cf p (x ++ rest)) = RNone /\
+                 rule_command_name (cx_prevc_cmd cx) (cf p (x ++ rest)) = RNone).
+  { rewrite Hpts. destruct (is_c CLetter c) eqn:El.
+    - assert (Hsl : starts_letter (x ++ rest) = true) by (rewrite Ex; cbn [app starts_letter]; exact El).
+      assert (Hesc : esc = false).
+      { destruct esc; [|reflexivity]. rewrite Ex in Hpre. cbn [starts_letter andb] in Hpre.
+        rewrite El in Hpre. discriminate Hpre. }
+      subst esc. destruct (Hctx Hsl) as [[A B] | (_ & A & B)].
+      + unfold rule_punctuation, rule_command_name. rewrite A, B. split; reflexivity.
+      + split.
+        * apply punct_none_find. rewrite chars_of_cf. exact A.
+        * unfold rule_command_name. rewrite B. reflexivity.
+    - assert (NL : catc c <> CLetter) by (intro E; apply is_c_true in E; congruence).
+      split.
+      + rewrite Ex. cbn [app]. apply punct_none_nonletter. exact NL.
+      + rewrite Hc0. apply cmd_none_nonletter. cbn [ccat]. exact NL. }
+  destruct H910 as [H9 H10].
+  rewrite run_rules_cons_none by (cbn [run_rule]; exact H9).
+  rewrite run_rules_cons_none by (cbn [run_rule]; exact H10).
+  apply run_rules_cons_tok. cbn [run_rule]. unfold rule_string.
+  rewrite (tw_cf (fun c => negb (mem_cc (ccat c) Tables.string_stop_cats)) text_c);
+    [ | intros; reflexivity | exact Ht | exact Hr ].
+  rewrite mk_tok_cf by exact Hne. reflexivity.
+Qed.
+
+(* rule 2 emits a Comment *)
+Lemma round_comment cx c b rest p :
+  is_c CComment c = true -> forallb noeol_c b = true ->
+  nc_not noeol_c (hd_error rest) = true ->
+  run_rules Tables.rule_order cx (cf p ((c :: b) ++ rest)) =
+  RTok (mkt (c :: b) p TComment) (cf (p + Z.of_nat (length (c :: b)))%Z rest).
+Proof.
+  intros Hc Hb Hr. cbn [app categorize_from].
+  rewrite comment_round by (cbn [ccat]; apply is_c_true; exact Hc).
+  rewrite (tw_cf (fun c => negb (is_cat CEndOfLine c)) noeol_c);
+    [ | intros; reflexivity | exact Hb | exact Hr ].
+  rewrite chars_of_cf. cbn [ch cpos].
+  replace (p + 1 + Z.of_nat (length b))%Z with (p + Z.of_nat (length (c :: b)))%Z
+    by (cbn [length]; lia).
+  reflexivity.
+Qed.
+
+(* rule 10 emits a CommandName *)
+Lemma round_cmd cx c m rest p :
+  is_c CLetter c = true -> forallb ls_c m = true -> nc_not ls_c (hd_error rest) = true ->
+  find_point points ((c :: m) ++ rest) = None ->
+  cx_points cx = points -> prev_is_escape (cx_prevc_cmd cx) = true ->
+  run_rules Tables.rule_order cx (cf p ((c :: m) ++ rest)) =
+  RTok (mkt (c :: m) p TCommandName) (cf (p + Z.of_nat (length (c :: m)))%Z rest).
+Proof.
+  intros Hc Hm Hr Hfp Hpts Hec.
+  assert (Hchars : chars_of (cf p ((c :: m) ++ rest)) = (c :: m) ++ rest) by apply chars_of_cf.
+  cbn [app categorize_from] in *.
+  rewrite letter_rules_none by (cbn [ccat]; apply is_c_true; exact Hc).
+  rewrite run_rules_cons_none
+    by (cbn [run_rule]; rewrite Hpts; apply punct_none_find; rewrite Hchars; exact Hfp).
+  apply run_rules_cons_tok. cbn [run_rule]. unfold rule_command_name. rewrite Hec.
+  rewrite is_cat_cf, Hc.
+  rewrite (tw_cf (fun c => is_cat CLetter c || N.eqb (ch c) star) ls_c);
+    [ | intros; reflexivity | exact Hm | exact Hr ].
+  rewrite chars_of_cf. cbn [ch cpos].
+  replace (p + 1 + Z.of_nat (length m))%Z with (p + Z.of_nat (length (c :: m)))%Z
+    by (cbn [length]; lia).
+  reflexivity.
+Qed.
+
+Lemma mem_str_In s l : mem_str s l = true -> In s l.
+Proof.
+  unfold mem_str. intro H. apply existsb_exists in H. destruct H as (x & Hx & E).
+  apply str_eqb_eq in E. subst. exact Hx.
+Qed.
+
+Lemma In_mem_str s l : In s l -> mem_str s l = true.
+Proof.
+  intro H. unfold mem_str. apply existsb_exists. exists s. split; [exact H | apply str_eqb_refl].
+Qed.
+
+Lemma firstn_app_exact {A} (a b : list A) : firstn (length a) (a ++ b) = a.
+Proof. rewrite firstn_app, Nat.sub_diag, firstn_all. cbn [firstn]. apply app_nil_r. Qed.
+
+Lemma skipn_app_exact {A} (a b : list A) : skipn (length a) (a ++ b) = b.
+Proof. rewrite skipn_app, Nat.sub_diag, skipn_all. reflexivity. Qed.
+
+(* rule 9 emits a PunctuationCommandName *)
+Lemma round_punct cx x rest p :
+  mem_str x points = true -> cx_points cx = points ->
+  prev_is_escape (cx_prevc_punct cx) = true ->
+  run_rules Tables.rule_order cx (cf p (x ++ rest)) =
+  RTok (mkt x p TPunctuationCommandName) (cf (p + Z.of_nat (length x))%Z rest).
+Proof.
+  intros Hx Hpts Hep. apply mem_str_In in Hx.
+  destruct (points_start_letter x Hx) as (c & x' & Ex & Hc).
+  assert (Hc0 : cf p (x ++ rest) = mkc c p (catc c) :: cf (p + 1)%Z (x' ++ rest))
+    by (rewrite Ex; reflexivity).
+  destruct (punctuation_command_one_token cx (mkc c p (catc c)) (cf (p + 1)%Z (x' ++ rest)) x)
+    as (H1 & _ & _).
+  - rewrite Hpts. apply Permutation_refl.
+  - exact Hep.
+  - reflexivity.
+  - exact Hx.
+  - rewrite <- Hc0, chars_of_cf. apply firstn_app_exact.
+  - rewrite <- Hc0 in H1. rewrite H1. cbn [cpos]. f_equal.
+    rewrite cf_app. rewrite <- (cf_length p x) at 1. apply skipn_app_exact.
+Qed.
+
+Lemma shape_nonempty t : shape t = true -> ttext t <> [].
+Proof.
+  unfold shape. intro H. apply andb_true_iff in H. destruct H as [_ H].
+  destruct (ttext t) as [|c x]; [|discriminate].
+  destruct (tcat t); cbn in H; discriminate H.
+Qed.
+
+(* the round on  ttext t ++ rest  emits exactly t *)
+Theorem round_emit esc t rest p prev pp pc :
+  shape t = true -> followc t rest = true -> pre_tok esc t = true ->
+  ctx_ok esc pp pc (ttext t ++ rest) ->
+  run_rules Tables.rule_order (mkctx p prev pp pc points) (cf p (ttext t ++ rest)) =
+  RTok (mkt (ttext t) p (tcat t)) (cf (p + Z.of_nat (length (ttext t)))%Z rest).
+Proof.
+  intros Hs Hf Hpre Hctx. set (cx := mkctx p prev pp pc points).
+  unfold shape in Hs. apply andb_true_iff in Hs. destruct Hs as [Hcl Hs].
+  destruct t as [x q k]. cbn [ttext tcat] in *. unfold followc in Hf. cbn [ttext tcat] in Hf.
+  unfold pre_tok in Hpre. cbn [ttext tcat] in Hpre.
+  destruct k; try (cbn in Hs; discriminate Hs).
+  - (* TEscape *)
+    cbn [shape_cat] in Hs. destruct x as [|c [|? ?]]; try discriminate Hs.
+    destruct (lookup_sym Tables.symbols_map (catc c)) as [k'|] eqn:Ek; [|discriminate Hs].
+    apply tc_eqb_eq in Hs. subst k'. apply andb_true_iff in Hf.
+    cbn [app length]. apply round_symbols; [exact Ek | intros _; exact Hf].
+  - (* TGroupBegin *)
+    cbn [shape_cat] in Hs. destruct x as [|c [|? ?]]; try discriminate Hs.
+    destruct (lookup_sym Tables.symbols_map (catc c)) as [k'|] eqn:Ek; [|discriminate Hs].
+    apply tc_eqb_eq in Hs. subst k'.
+    cbn [app length]. apply round_symbols; [exact Ek|].
+    intro E. rewrite E in Ek. vm_compute in Ek. discriminate Ek.
+  - (* TGroupEnd *)
+    cbn [shape_cat] in Hs. destruct x as [|c [|? ?]]; try discriminate Hs.
+    destruct (lookup_sym Tables.symbols_map (catc c)) as [k'|] eqn:Ek; [|discriminate Hs].
+    apply tc_eqb_eq in Hs. subst k'.
+    cbn [app length]. apply round_symbols; [exact Ek|].
+    intro E. rewrite E in Ek. vm_compute in Ek. discriminate Ek.
+  - (* TComment *)
+    cbn [shape_cat] in Hs. destruct x as [|c b]; [discriminate Hs|].
+    apply andb_true_iff in Hs. destruct Hs as [Hc Hb].
+    apply round_comment; assumption.
+  - (* TMergedSpacer *)
+    apply andb_true_iff in Hf. destruct Hf as [Hf He]. apply andb_true_iff in Hf.
+    destruct Hf as [Hrb Hsp]. apply round_spacer; try assumption. reflexivity.
+  - (* TEscapedComment *)
+    cbn [shape_cat] in Hs. destruct x as [|c0 [|c1 [|? ?]]]; try discriminate Hs.
+    apply andb_true_iff in Hs. destruct Hs as [H0 H1].
+    rewrite cf_app. cbn [categorize_from app].
+    rewrite escaped_round; [reflexivity | cbn [ccat]; apply is_c_true; exact H0 | exact H1].
+  - (* TMathSwitch *)
+    cbn [shape_cat] in Hs. destruct x as [|c [|? ?]]; try discriminate Hs.
+    rewrite cf_app. cbn [categorize_from app].
+    rewrite single_switch_token; [reflexivity | cbn [ccat]; apply is_c_true; exact Hs|].
+    unfold not_switch_next.
+    pose proof (cf_head_stop (is_cat CMathSwitch) (is_c CMathSwitch)
+                  ltac:(intros; reflexivity) rest (p + Z.of_nat (length [c]))%Z Hf) as G.
+    destruct (cf (p + Z.of_nat (length [c]))%Z rest) as [|c1 r]; [exact I|].
+    intro E. apply is_cat_true in E. congruence.
+  - (* TDisplayMathSwitch *)
+    cbn [shape_cat] in Hs. destruct x as [|c0 [|c1 [|? ?]]]; try discriminate Hs.
+    apply andb_true_iff in Hs. destruct Hs as [H0 H1].
+    rewrite cf_app. cbn [categorize_from app].
+    rewrite display_switch_token; [reflexivity | |]; cbn [ccat]; apply is_c_true; assumption.
+  - (* TMathGroupBegin *)
+    cbn [shape_cat] in Hs. destruct x as [|c0 [|c1 [|? ?]]]; try discriminate Hs.
+    destruct (lookup_asym Tables.asym_map (catc c0) (catc c1)) as [k'|] eqn:Ek; [|discriminate Hs].
+    apply tc_eqb_eq in Hs. subst k'.
+    assert (E0 : catc c0 = CEscape).
+    { destruct (cc_eq_dec (catc c0) CEscape) as [E|NE]; [exact E|].
+      rewrite (asym_key_escape _ _ NE) in Ek. discriminate Ek. }
+    rewrite cf_app. cbn [categorize_from app].
+    rewrite (asym_round _ _ _ _ TMathGroupBegin); [reflexivity | exact E0 |].
+    cbn [ccat]. rewrite <- E0. exact Ek.
+  - (* TMathGroupEnd *)
+    cbn [shape_cat] in Hs. destruct x as [|c0 [|c1 [|? ?]]]; try discriminate Hs.
+    destruct (lookup_asym Tables.asym_map (catc c0) (catc c1)) as [k'|] eqn:Ek; [|discriminate Hs].
+    apply tc_eqb_eq in Hs. subst k'.
+    assert (E0 : catc c0 = CEscape).
+    { destruct (cc_eq_dec (catc c0) CEscape) as [E|NE]; [exact E|].
+      rewrite (asym_key_escape _ _ NE) in Ek. discriminate Ek. }
+    rewrite cf_app. cbn [categorize_from app].
+    rewrite (asym_round _ _ _ _ TMathGroupEnd); [reflexivity | exact E0 |].
+    cbn [ccat]. rewrite <- E0. exact Ek.
+  - (* TDisplayMathGroupBegin *)
+    cbn [shape_cat] in Hs. destruct x as [|c0 [|c1 [|? ?]]]; try discriminate Hs.
+    destruct (lookup_asym Tables.asym_map (catc c0) (catc c1)) as [k'|] eqn:Ek; [|discriminate Hs].
+    apply tc_eqb_eq in Hs. subst k'.
+    assert (E0 : catc c0 = CEscape).
+    { destruct (cc_eq_dec (catc c0) CEscape) as [E|NE]; [exact E|].
+      rewrite (asym_key_escape _ _ NE) in Ek. discriminate Ek. }
+    rewrite cf_app. cbn [categorize_from app].
+    rewrite (asym_round _ _ _ _ TDisplayMathGroupBegin); [reflexivity | exact E0 |].
+    cbn [ccat]. rewrite <- E0. exact Ek.
+  - (* TDisplayMathGroupEnd *)
+    cbn [shape_cat] in Hs. destruct x as [|c0 [|c1 [|? ?]]]; try discriminate Hs.
+    destruct (lookup_asym Tables.asym_map (catc c0) (catc c1)) as [k'|] eqn:Ek; [|discriminate Hs].
+    apply tc_eqb_eq in Hs. subst k'.
+    assert (E0 : catc c0 = CEscape).
+    { destruct (cc_eq_dec (catc c0) CEscape) as [E|NE]; [exact E|].
+      rewrite (asym_key_escape _ _ NE) in Ek. discriminate Ek. }
+    rewrite cf_app. cbn [categorize_from app].
+    rewrite (asym_round _ _ _ _ TDisplayMathGroupEnd); [reflexivity | exact E0 |].
+    cbn [ccat]. rewrite <- E0. exact Ek.
+  - (* TCommandName *)
+    cbn [shape_cat] in Hs. destruct x as [|c m]; [discriminate Hs|].
+    apply andb_true_iff in Hs. destruct Hs as [Hc Hm].
+    apply andb_true_iff in Hf. destruct Hf as [Hr Hfp].
+    subst esc.
+    assert (Hsl : starts_letter ((c :: m) ++ rest) = true) by (cbn [app starts_letter]; exact Hc).
+    destruct (Hctx Hsl) as [[A B] | (F & _)]; [|discriminate F].
+    apply round_cmd; try assumption; try reflexivity.
+    destruct (find_point points ((c :: m) ++ rest)); [discriminate Hfp | reflexivity].
+  - (* TText *)
+    apply (round_text cx x rest p esc); try assumption. reflexivity.
+  - (* TBracketBegin *)
+    cbn [shape_cat] in Hs. destruct x as [|c [|? ?]]; try discriminate Hs.
+    destruct (lookup_sym Tables.symbols_map (catc c)) as [k'|] eqn:Ek; [|discriminate Hs].
+    apply tc_eqb_eq in Hs. subst k'.
+    cbn [app length]. apply round_symbols; [exact Ek|].
+    intro E. rewrite E in Ek. vm_compute in Ek. discriminate Ek.
+  - (* TBracketEnd *)
+    cbn [shape_cat] in Hs. destruct x as [|c [|? ?]]; try discriminate Hs.
+    destruct (lookup_sym Tables.symbols_map (catc c)) as [k'|] eqn:Ek; [|discriminate Hs].
+    apply tc_eqb_eq in Hs. subst k'.
+    cbn [app length]. apply round_symbols; [exact Ek|].
+    intro E. rewrite E in Ek. vm_compute in Ek. discriminate Ek.
+  - (* TPunctuationCommandName *)
+    cbn [shape_cat] in Hs. subst esc.
+    assert (Hsl : starts_letter (x ++ rest) = true).
+    { destruct (points_start_letter x (mem_str_In _ _ Hs)) as (c & x' & Ex & Hc). subst x.
+      cbn [app starts_letter]. apply is_c_true. exact Hc. }
+    destruct (Hctx Hsl) as [[A B] | (F & _)]; [|discriminate F].
+    apply round_punct; try assumption; reflexivity.
+Qed.
+
+(* ====================================================================== *)
+(* Stage 2: the loop and the theorem                                       *)
+(* ====================================================================== *)
+
+Lemma texts_cons t r : texts (t :: r) = ttext t ++ texts r.
+Proof. reflexivity. Qed.
+
+Lemma texts_app a b : texts (a ++ b) = texts a ++ texts b.
+Proof. unfold texts. rewrite map_app, concat_app. reflexivity. Qed.
+
+Lemma loop_step f pts idx pp pc prev rest t rest' :
+  rest <> [] ->
+  run_rules Tables.rule_order (mkctx idx prev pp pc pts) rest = RTok t rest' ->
+  tokenize_loop (S f) pts idx pp pc prev rest =
+  let lc := last_consumed rest rest' in
+  let (ts, e) := tokenize_loop f pts (idx + Z.of_nat (length rest - length rest'))%Z
+                               lc lc (Some t) rest' in
+  (t :: ts, e).
+Proof.
+  intros Hne H. destruct rest as [|c0 r]; [congruence|]. apply loop_step_tok. exact H.
+Qed.
+
+(* the state after a round that consumed x *)
+Lemma consumed_cf p x rest :
+  length (cf p (x ++ rest)) - length (cf (p + Z.of_nat (length x))%Z rest) = length x.
+Proof. rewrite !cf_length, app_length. lia. Qed.
+
+Lemma last_consumed_cf p x rest :
+  x <> [] ->
+  prev_is_escape (last_consumed (cf p (x ++ rest)) (cf (p + Z.of_nat (length x))%Z rest)) =
+  is_c CEscape (last x 0%N).
+Proof.
+  intro H. destruct x as [|c x']; [congruence|].
+  rewrite cf_app. cbn [categorize_from app].
+  rewrite last_consumed_body. unfold prev_is_escape, is_cat.
+  rewrite last_cf_cat. rewrite last_cons. reflexivity.
+Qed.
+
+Lemma ctx_ok_same esc pp pc s :
+  prev_is_escape pp = esc -> prev_is_escape pc = esc -> ctx_ok esc pp pc s.
+Proof. intros A B _. left. split; assumption. Qed.
+
+Theorem loop_tokinv toks : forall fuel idx pp pc prev esc,
+  Forall (fun t => shape t = true) toks -> follows_ok toks = true -> pre_ok esc toks = true ->
+  ctx_ok esc pp pc (texts toks) -> (length (texts toks) < fuel)%nat ->
+  tokenize_loop fuel points idx pp pc prev (cf idx (texts toks)) = (repos idx toks, TEnd).
+Proof.
+  induction toks as [|t r IH]; intros fuel idx pp pc prev esc Hsh Hfo Hpre Hctx Hfuel.
+  - destruct fuel as [|f]; [cbn in Hfuel; lia|]. reflexivity.
+  - destruct fuel as [|f]; [lia|].
+    inversion Hsh as [|? ? Hst Hsr]; subst.
+    cbn [follows_ok] in Hfo. apply andb_true_iff in Hfo. destruct Hfo as [Hft Hfr].
+    unfold follow in Hft. apply andb_true_iff in Hft. destruct Hft as [Hfc Hnext].
+    cbn [pre_ok] in Hpre.
+    pose proof (shape_nonempty t Hst) as Hne.
+    rewrite texts_cons in *.
+    assert (Hne' : cf idx (ttext t ++ texts r) <> []).
+    { destruct (ttext t); [congruence | discriminate]. }
+    rewrite (loop_step f points idx pp pc prev _ _ _ Hne'
+               (round_emit esc t (texts r) idx prev pp pc Hst Hfc Hpre Hctx)).
+    cbv zeta. rewrite consumed_cf.
+    rewrite (IH f (idx + Z.of_nat (length (ttext t)))%Z _ _ (Some (mkt (ttext t) idx (tcat t)))
+                (ends_esc t) Hsr Hfr Hnext).
+    + reflexivity.
+    + apply ctx_ok_same; apply last_consumed_cf; exact Hne.
+    + rewrite app_length in Hfuel. destruct (ttext t); [congruence|]. cbn [length] in Hfuel. lia.
+Qed.
+
+(* ---------------------------------------------------------------- start *)
+
+Definition second_not_escape_b (q : str) : bool :=
+  match q with _ :: c1 :: _ => negb (is_c CEscape c1) | _ => false end.
+
+Lemma points_second_not_escape_b : forallb second_not_escape_b points = true.
+Proof. vm_compute. reflexivity. Qed.
+
+(* no sizing command matches an input whose second character is an escape *)
+Lemma find_point_second_escape c0 c1 s :
+  is_c CEscape c1 = true -> find_point points (c0 :: c1 :: s) = None.
+Proof.
+  intro H. destruct (find_point points (c0 :: c1 :: s)) as [q|] eqn:E; [|reflexivity].
+  exfalso. apply find_point_in in E. destruct E as [Iq Fq].
+  pose proof points_second_not_escape_b as B. rewrite forallb_forall in B. specialize (B q Iq).
+  destruct q as [|a [|b q']]; try discriminate B. cbn [second_not_escape_b] in B.
+  cbn [length firstn] in Fq. inversion Fq; subst. rewrite H in B. discriminate B.
+Qed.
+
+Lemma nth_error_cf s : forall p i,
+  nth_error (cf p s) i =
+  match nth_error s i with Some c => Some (mkc c (p + Z.of_nat i)%Z (catc c)) | None => None end.
+Proof.
+  induction s as [|a s IH]; intros p i; destruct i as [|i]; cbn [categorize_from nth_error]; try reflexivity.
+  - rewrite Z.add_0_r. reflexivity.
+  - rewrite IH. destruct (nth_error s i); [|reflexivity]. do 2 f_equal. lia.
+Qed.
+
+Lemma start_ctx_ok s :
+  start_quirk s = false ->
+  ctx_ok false (start_prev_punct (categorize s)) (start_prev_cmd points (categorize s)) s.
+Proof.
+  intros Hq Hsl. unfold categorize.
+  destruct s as [|c0 [|c1 s']].
+  - discriminate Hsl.
+  - left. cbn [starts_letter] in Hsl. apply is_c_true in Hsl.
+    unfold start_prev_cmd. cbn [categorize_from start_prev_punct].
+    assert (E : prev_is_escape (Some (mkc c0 0%Z (catc c0))) = false).
+    { unfold prev_is_escape. apply is_cat_false. cbn [ccat]. rewrite Hsl. discriminate. }
+    rewrite E. split; first [reflexivity | exact E].
+  - cbn [starts_letter] in Hsl. unfold start_prev_cmd.
+    cbn [categorize_from start_prev_punct].
+    change (prev_is_escape (Some (mkc c1 (0 + 1)%Z (catc c1)))) with (is_c CEscape c1).
+    destruct (is_c CEscape c1) eqn:E1.
+    + right. split; [reflexivity|]. split; [apply find_point_second_escape; exact E1|].
+      unfold start_quirk in Hq. rewrite Hsl, E1 in Hq. cbn [andb] in Hq.
+      change (mkc c0 0%Z (catc c0) :: mkc c1 (0 + 1)%Z (catc c1) :: cf (0 + 1 + 1)%Z s')
+        with (cf 0%Z (c0 :: c1 :: s')).
+      rewrite cf_length, nth_error_cf.
+      destruct (nth_error (c0 :: c1 :: s')
+                  (Nat.min (length (c0 :: c1 :: s')) (S (max_point_len points)) - 1)) as [c|];
+        [|reflexivity].
+      cbn [nth_is] in Hq. unfold prev_is_escape. rewrite is_cat_cf. exact Hq.
+    + left. change (prev_is_escape (Some (mkc c1 (0 + 1)%Z (catc c1)))) with (is_c CEscape c1).
+      rewrite E1. split; reflexivity.
+Qed.
+
+(* TOKINV *)
+Theorem tokinv toks :
+  Forall (fun t => shape t = true) toks -> follows_ok toks = true -> first_ok toks = true ->
+  tokens_of_string (texts toks) = (repos 0 toks, TEnd).
+Proof.
+  intros Hsh Hfo Hfirst. unfold first_ok in Hfirst. apply andb_true_iff in Hfirst.
+  destruct Hfirst as [Hpre Hq]. apply negb_true_iff in Hq.
+  unfold tokens_of_string, tokenize, tokenize_with.
+  unfold categorize at 4.
+  apply (loop_tokinv toks _ 0%Z _ _ None false Hsh Hfo Hpre).
+  - apply start_ctx_ok. exact Hq.
+  - unfold categorize. rewrite cf_length. lia.
+Qed.
+
+Fixpoint offsets_ok (p : Z) (toks : list token) : Prop :=
+  match toks with
+  | [] => True
+  | t :: r => tpos t = p /\ offsets_ok (p + Z.of_nat (length (ttext t)))%Z r
+  end.
+
+Lemma repos_id toks : forall p, offsets_ok p toks -> repos p toks = toks.
+Proof.
+  induction toks as [|t r IH]; intros p H; [reflexivity|].
+  cbn [offsets_ok] in H. destruct H as [H1 H2]. cbn [repos]. rewrite (IH _ H2).
+  destruct t as [x q k]. cbn [ttext tpos tcat] in *. subst q. reflexivity.
+Qed.
+
+Corollary tokinv_exact toks :
+  Forall (fun t => shape t = true) toks -> follows_ok toks = true -> first_ok toks = true ->
+  offsets_ok 0 toks ->
+  tokens_of_string (texts toks) = (toks, TEnd).
+Proof. intros A B C D. rewrite (tokinv toks A B C), (repos_id toks 0%Z D). reflexivity. Qed.
